@@ -228,6 +228,7 @@ type hrWorld struct {
 	prevX          *hrExpect
 	curX           *hrExpect
 	lateAck        int32
+	sameEpoch      int32 // class same-epoch-round entered
 	afterClose     int32 // class hr-after-close entered
 	onClosed       int32 // class hr-on-closed-session entered
 	closeReturned  int32
@@ -1366,9 +1367,9 @@ func hrRunScenario(sc *hrScenario, job *hrJob) (out hrOutcome) {
 				w.notified[s] = uint64(st.E)
 			}
 			w.mu.Unlock()
+			w.lHotSince = time.Now()
 			err := w.oldL.HotRestart(uint64(st.E))
 			w.lastTimerStart = time.Now()
-			w.lHotSince = w.lastTimerStart
 			if err != nil {
 				drifted(si, "HotRestart returned "+err.Error())
 				return
@@ -1446,6 +1447,17 @@ func hrRunScenario(sc *hrScenario, job *hrJob) (out hrOutcome) {
 						hit = true
 					}
 				}
+				w.sm.RLock()
+				again := starting && w.sm.epoch == p.epoch && p.epoch != 0
+				w.sm.RUnlock()
+				if again {
+					// the manager has already run a round for this epoch and starts another one
+					atomic.StoreInt32(&w.sameEpoch, 1)
+					if hrHas(job.Known, "same-epoch-round") && !sc.Raw {
+						out.known = append(out.known, "same-epoch-round")
+						hit = true
+					}
+				}
 				if c.IsClosed() {
 					atomic.StoreInt32(&w.onClosed, 1)
 					if hrHas(job.Known, "hr-on-closed-session") && !sc.Raw {
@@ -1462,12 +1474,13 @@ func hrRunScenario(sc *hrScenario, job *hrJob) (out hrOutcome) {
 			w.mu.Unlock()
 			if starting {
 				w.killBegin() // the first event closes the reserve pools of the previous restart
+				// the code starts its 2 s timer inside the handler, before it connects: take the earlier instant
+				w.mHotSince = time.Now()
 			}
 			hrOrigSM(w.sm, p) // the real handleSessionManagerHotRestart with the received parameters
 			if starting {
 				w.killEnd()
 				w.lastTimerStart = time.Now()
-				w.mHotSince = w.lastTimerStart
 			}
 			if foreign {
 				after := w.snapshot(len(prev.Sess))
@@ -1638,6 +1651,8 @@ func hrRunScenario(sc *hrScenario, job *hrJob) (out hrOutcome) {
 				}
 			}
 		case "WExit":
+		case "Sleep":
+			time.Sleep(time.Duration(st.I) * time.Millisecond)
 		case "SMClose":
 			w.killBegin()
 			w.closeDone = make(chan struct{})
@@ -1735,6 +1750,8 @@ func hrRunScenario(sc *hrScenario, job *hrJob) (out hrOutcome) {
 		if detail := w.orphanOracle(); detail != "" {
 			if atomic.LoadInt32(&w.onClosed) == 1 && hrHas(job.Known, "hr-on-closed-session") {
 				out.known = append(out.known, "hr-on-closed-session: "+detail)
+			} else if atomic.LoadInt32(&w.sameEpoch) == 1 && hrHas(job.Known, "same-epoch-round") {
+				out.known = append(out.known, "same-epoch-round: "+detail)
 			} else {
 				w.viol(sc, &out, "orphan-session", detail)
 			}
